@@ -73,6 +73,10 @@ CHECKS = {
    technique="same spec and traces as C02, judged for filtering (Judge=filter): inbound admitted iff a live mapping owns the address and the sender matches a recorded permission; forwarded to the mapping's creator; refused inbound changes nothing",
    text="Inbound datagrams from contacted, same-IP-other-port and never-contacted remotes to live, expired, never-allocated and other-WAN-address targets are interleaved with outbound traffic and clock steps; TLC validates admission, the forwarding target, unchanged source/payload, that inbound traffic never prolongs a mapping, and 1:1 forwarding of paired/unpaired addresses.",
    note="as C02; external addresses are taken as given in this mode"),
+ "C13": dict(engine="tlc-trace", design_ref="DESIGN.md §4 C13",
+   technique="TLA+ spec of address assignment and socket binding (VNetAddr.tla) + TLC MC (AtMostOneCovers, NICsInSubnet) + transition tours through the four bind entry points, random bind/close histories with stale double-closes, 1001-bind ephemeral exhaustion, and 270-NIC static/automatic mixes; traces validated by TLC",
+   text="TLC checks that at most one open socket covers any address and that NIC addresses stay inside the subnet for all small histories; every transition of the bind/close graph is replayed on a real Net through ListenUDP/ListenPacket/DialUDP/Dial with wildcard, loopback, two host addresses and a foreign address, specific and zero ports, probing after each step which socket an inbound datagram would reach; seeded histories add stale double-closes and exhaust the 5000-5999 range on one address, the wildcard and a mix; on routers, seeded mixes of static (inside/outside the subnet, inside the automatic range, .0/.255) and automatic assignment attach 270 NICs (hosts and child routers); TLC validates every result: bind succeeds exactly when the ip is bindable and uncovered, chosen ephemeral port free and in range, failure only when none is free, close frees, demux to the covering socket, automatic address in subnet and unheld.",
+   note="demux is observed on the host's socket table in-package (udpConns.find); an automatic assignment may report an error at any time; duplicate statics are not exercised"),
 }
 
 def main():
